@@ -100,14 +100,25 @@ Definition tr_finally (src cmp : traits) : traits :=
   {| t_blocking := bk_max (t_blocking src) (t_blocking cmp);
      t_sends_done := t_sends_done src || t_sends_done cmp;
      t_affine := t_affine src && t_affine cmp |}.
-(* when_all.hpp:341 (sends_done = true), 343 with 322-326 (max_element over the children), 345-346 *)
+(* when_all / stop_when start all their children and the one completing LAST delivers the result, so
+   a child declaring never only keeps the whole operation off the calling thread's start() frame when
+   it is the one started last (an earlier one may complete on another thread before a later, inline
+   child delivers inline).  Repaired in /repo b8744e5 (when_all) and ca334ca (stop_when); before that
+   both headers took the plain maximum (unsound for never: Properties_C11_multi.v
+   C11_multi_when_all_asfound_never_refuted / C11_multi_stop_when_asfound_never_refuted).
+   [m] = maximum over the children, [last_started] = blocking of the child started last. *)
+Definition cap_never (m last_started : bk) : bk :=
+  if bk_eqb m BNever && negb (bk_eqb last_started BNever) then BMaybe else m.
+(* when_all.hpp:345 (sends_done = true), 347 with 322-330 (max_element over the children, never only when
+   the last child is never), 349-350 *)
 Definition tr_when_all (a b : traits) : traits :=
-  {| t_blocking := bk_max (t_blocking a) (t_blocking b);
+  {| t_blocking := cap_never (bk_max (t_blocking a) (t_blocking b)) (t_blocking b);
      t_sends_done := true;
      t_affine := t_affine a && t_affine b |}.
-(* stop_when.hpp:329 (sends_done = true), 333-334, 336-338 *)
+(* stop_when.hpp:346 (sends_done = true), 350-358 (max(source, trigger), never only when the trigger is never),
+   360-362 *)
 Definition tr_stop_when (src trg : traits) : traits :=
-  {| t_blocking := bk_max (t_blocking src) (t_blocking trg);
+  {| t_blocking := cap_never (bk_max (t_blocking src) (t_blocking trg)) (t_blocking trg);
      t_sends_done := true;
      t_affine := t_affine src && t_affine trg |}.
 
@@ -157,9 +168,10 @@ Definition affine_of (e : sexpr) : bool := t_affine (traits_of e).
      then.hpp:188-191, with_query_value.hpp:180-183, materialize.hpp:221-224 (child);
      let_value.hpp:426-435, let_error.hpp:436-446, let_done.hpp:329-335
         (max(rt(pred), min(STATIC successor, maybe)));
-     finally.hpp:691-696, stop_when.hpp:373-378 (max of the two children's run-time answers).
+     finally.hpp:691-696 (max of the two children's run-time answers);
+     stop_when.hpp:397-405 (the static formula over the two children's run-time answers).
    upon_error.hpp:172-175, upon_done.hpp:192-195, unstoppable.hpp:71-74, sequence.hpp:307-313 and
-   when_all.hpp:371-380 spell their customisation tag_t<blocking>, which inside the class names the
+   when_all.hpp:375-384 spell their customisation tag_t<blocking>, which inside the class names the
    static data member [blocking], not the CPO: it never matches and the CPO answers with the static
    value.  Mirrored as written. *)
 Definition rt_let (rt_pred static_succ : bk) : bk := bk_max rt_pred (bk_min static_succ BMaybe).
@@ -176,7 +188,8 @@ Fixpoint rt_blocking_of (e : sexpr) : bk :=
   | Bin k a b =>
       match k with
       | BLetV | BLetE | BLetD => rt_let (rt_blocking_of a) (blocking_of b)
-      | BFinally | BStopWhen => bk_max (rt_blocking_of a) (rt_blocking_of b)   (* then(b) -> b *)
+      | BFinally => bk_max (rt_blocking_of a) (rt_blocking_of b)               (* then(b) -> b *)
+      | BStopWhen => cap_never (bk_max (rt_blocking_of a) (rt_blocking_of b)) (rt_blocking_of b)
       | BSeq | BWhenAll => blocking_of e                           (* customisation never matches *)
       end
   | _ => blocking_of e                                             (* just / k2::inl / k2::leaf *)
